@@ -1,10 +1,12 @@
 #!/bin/sh
 # re-evaluate every stored seed against the current checks (on scratch worktrees; /repo is not touched)
+# usage: tools/seed_refresh.sh [jobs]   (default 2 at a time: the pinned suite has timing-sensitive tests)
 cd /verif
-for d in seeded/*/; do
-  id=$(basename $d); prop=$(python3 -c "import json;print(json.load(open('$d/meta.json'))['property'])")
-  needs=$(python3 -c "import json;print(json.load(open('$d/meta.json')).get('needs',''))")
+J=${1:-2}
+ls -d seeded/*/ | xargs -P "$J" -I{} sh -c '
+  d={}; id=$(basename $d)
+  prop=$(python3 -c "import json;print(json.load(open(\"$d/meta.json\"))[\"property\"])")
+  needs=$(python3 -c "import json;print(json.load(open(\"$d/meta.json\")).get(\"needs\",\"\"))")
   cp $d/patch.diff /tmp/_p_$id.diff; cp $d/demo.py /tmp/_d_$id.py
-  /venv/bin/python tools/seed_eval.py $id $prop /tmp/_p_$id.diff /tmp/_d_$id.py --needs "$needs" --keep --via-root 2>&1 | grep -E "confirmed=|caught by: NOTHING" 
-  rm -f /tmp/_p_$id.diff /tmp/_d_$id.py
-done
+  /venv/bin/python tools/seed_eval.py $id $prop /tmp/_p_$id.diff /tmp/_d_$id.py --needs "$needs" --keep --via-root 2>&1 | grep -E "confirmed=|caught by: NOTHING"
+  rm -f /tmp/_p_$id.diff /tmp/_d_$id.py'
